@@ -12,26 +12,32 @@ TECH = ("deterministic simulation with fault injection: seeded plan (system + ca
 
 CLAIMED = {
     "C12": ("cg", "§3 C12",
-            "seeded search over (HPD system, preconditioner, callback forms and return styles, caller schedule of "
-            "update/done/peek, curvature fault at the k-th operator call); every update of every session is judged "
-            "against a dense Krylov-optimal reference, breakdown behaviour under injected non-positive curvature",
+            "seeded search over (HPD system, preconditioner, callback forms and return styles incl. alias-returning and "
+            "buffer-reusing callbacks, other solver instances running inside callbacks, caller arrays narrower than the "
+            "data, caller schedule of update/done/peek incl. overruns past done(), curvature fault at the k-th operator "
+            "call); every update of every session is judged against a dense Krylov-optimal reference, breakdown "
+            "behaviour under injected non-positive curvature",
             "sampling, not enumeration; dense float64 reference trusted; tolerance tied to a textbook PCG run on the same instance"),
     "C13": ("pg", "§3 C13",
-            "seeded search over composite problems, solver options, callback forms and caller schedules for "
-            "GradientMethod and PrimalDualHybridGradient, plus process histories run in fresh interpreters; every "
-            "update judged against theorem-backed inequalities (descent, O(1/k), O(1/k^2), fixed points, Fejer "
-            "monotonicity in the M-norm) and a bounded-convergence check, using a KKT-certified reference",
+            "seeded search over composite problems, solver options (scalar / array / mixed step layouts, acceleration "
+            "modes, max_iter independent of the driven updates), callback forms (closures, sigpy objects, alias-returning "
+            "operators, prox evaluated by an inner solver, other solver instances running inside callbacks) and caller "
+            "schedules for GradientMethod and PrimalDualHybridGradient, plus process histories run in fresh "
+            "interpreters; every update judged against theorem-backed inequalities (descent, O(1/k), O(1/k^2), fixed "
+            "points, Fejer monotonicity in the M-norm) and bounded-convergence checks, using a KKT-certified reference",
             "sampling; reference minimiser trusted when its KKT certificate holds (else instance discarded); "
             "accelerated PDHG is only checked for fixed points and convergence, not for its rate"),
     "C14": ("lls", "§3 C14",
             "seeded search over the option cross-product of LinearLeastSquares under simulated RNG history, clock and "
-            "progress stream; objective gap to a KKT-certified optimum, ledger over y/z/captured arrays after every "
-            "update, twin runs under different RNG histories and under absorbed stream/clock faults",
+            "progress stream, with operator objects shared with an earlier app and an operator that fails once mid-run "
+            "(caller resumes run()); objective gap to a KKT-certified optimum, ledger over y/z/captured arrays after "
+            "every update, twin runs under different RNG histories and under absorbed stream/clock faults",
             "sampling; certified dense reference; iteration budgets fixed per solver"),
     "C15": ("stop", "§3 C15",
             "seeded search over interleavings of done()/update()/peeks and App.run() for every Alg subclass and App, "
-            "with clock jumps and stream faults during run(); counter, purity-of-queries, budget, early-stop "
-            "fixed-point and power-iteration monotonicity invariants after every step, twin canonical run",
+            "with clock jumps, sticky and transient stream faults during run() (aborted runs are resumed) and user "
+            "callbacks that fail once inside an update; counter, purity-of-queries, budget, early-stop fixed-point, "
+            "abandoned-update and power-iteration invariants after every step, twin canonical run",
             "sampling; early-stop judged by continuing the run to max_iter; SDMM explored with eps=0"),
     "C18": ("rng", "§3 C18",
             "seeded histories of process-global numpy RNG use around mri.samp.poisson in JIT and interpreter mode, "
